@@ -36,7 +36,12 @@ def replay_hash(prop, r, fs, seed, work):
     return rc == 1, out
 
 
-DRIVERS = [('aes_', replay_aes), ('sha', replay_hash), ('md5', replay_hash), ('hashmaster_', replay_hash), ('filebuffer', replay_hash)]
+def replay_b64(prop, r, fs, seed, work):
+    rc, out = native('b64_replay.cpp', ['valget/base64/base64.cpp'], [seed], work)
+    return rc == 1, out
+
+
+DRIVERS = [('b64_', replay_b64), ('aes_', replay_aes), ('sha', replay_hash), ('md5', replay_hash), ('hashmaster_', replay_hash), ('filebuffer', replay_hash)]
 
 
 def make(prop, r, fs, meta, seed, work):
